@@ -56,6 +56,7 @@ fn main() {
         i += 1;
     }
     engine::procs::init_explorer_scratch();
+    unsafe { libc::umask(0o022) };
     // the explorer itself must never be taken down by a stray SIGPIPE
     unsafe { libc::signal(libc::SIGPIPE, libc::SIG_IGN) };
     let r = std::panic::catch_unwind(|| props::run(&prop, tier, replay));
